@@ -72,7 +72,7 @@ func ctorOf(info *types.Info, e ast.Expr) string {
 
 func templateSites(p *core.Program) []templateSite {
 	var out []templateSite
-	renderT := []string{"(" + core.G("pkg/gengo.Context") + ").RenderT", core.GM("pkg/gengo", "*gengoCtx", "RenderT")}
+	renderT := []string{"(" + core.G("pkg/gengo.Context") + ").RenderT", core.GM("pkg/gengo", "*"+ctxTypeName(p), "RenderT")}
 	for _, f := range p.Funcs() {
 		info := f.Info()
 		ast.Inspect(f.Body, func(n ast.Node) bool {
